@@ -27,7 +27,8 @@ ASSUMPTIONS = [
     'month-based bumps (m/q/y) are checked from midnight only: with a time of day they reset it (statement: claimed at midnight only); '
     'compound tenors in which an m/q/y part meets a non-midnight intermediate time are skipped (outcome class compound-skipped-tod)',
     'dt(bump) / dt_bump relative to today is excluded (depends on the run date); every start time is an explicit datetime',
-    'relativedelta bumps, time-zone bumps / tz-aware start times, NaT and timeseries operands are excluded',
+    'relativedelta bumps, time-zone bumps, NaT and timeseries operands are excluded; tz-aware start times only for business-day and fixed-length tenors (suite '
+    'compound_intraday): the count runs on the local date, the time of day and the zone are kept (m/q/y drop the zone like they drop the time of day)',
     "n = 0: '0b' from a weekday is taken to return t (it follows from the composition clause with a = 0) and from a weekend day the "
     'following Monday (the roll-forward clause); negative n from a weekend day count back from that Monday (the roll-forward clause)',
     "named tenors are checked as the business-day bumps the code documents: spot = 0b, on = o/n = 1b, tn = t/n = 2b, sn = s/n = 3b",
@@ -466,6 +467,11 @@ ITODS = [datetime.timedelta(hours=22), datetime.timedelta(hours=1, minutes=30), 
 DATE_TENORS = [[('h', 12), ('h', 12)], [('b', 1)], [('d', 2), ('b', -1)], [('h', 5)], [('m', 1), ('b', 1)], [('n', 90), ('b', 2)], [('w', 1)], [('y', 1), ('d', -1)]]
 
 
+AWARE_ZONES = [datetime.timezone(datetime.timedelta(hours=-5)), datetime.timezone(datetime.timedelta(hours=9)), datetime.timezone.utc]
+AWARE_TENORS = [[('b', n)] for n in (-2, -1, 0, 1, 3)] + [[('h', 3), ('b', 1)], [('b', -1), ('h', 30)], [('d', 1), ('b', 2)], [('n', 90)]]
+NAMED_SEQS = [['spot', '1m'], ['on', '2d'], ['1d', 'tn', '1w'], ['SN', '-1b'], ['1m', 'spot'], ['o/n', 't/n']]
+
+
 def check_compound_intraday(case):
     import numpy as np
     import pandas as pd
@@ -499,6 +505,45 @@ def check_compound_intraday(case):
                     if r != e:
                         rec('compound-wrong', '%s(%r, %r): expected %s (parts left to right, each from the time reached so far) observed %s' % (via, t, s0, e, r),
                             unit='compound-intraday', via=via, parts=[IPARTS[k][0] for k in tenor])
+        # ---- time-zone aware starts: business days are counted on the LOCAL date, the time of day and the zone are kept
+        for tz in AWARE_ZONES:
+            for tod in ITODS[:2]:
+                tn_ = DAYS[i] + tod
+                t = tn_.replace(tzinfo=tz)
+                for parts in AWARE_TENORS:
+                    e = fold(tn_, parts)
+                    nsub += 1
+                    if e is None:
+                        continue
+                    e = e.replace(tzinfo=tz)
+                    s0 = ''.join(spell(u, n) for u, n in parts)
+                    try:
+                        r = dt_bump(t, s0)
+                        ncall += 1
+                    except Exception as ex:
+                        rec('raised', 'dt_bump(%r, %r) raised %s: %s; expected %s' % (t, s0, type(ex).__name__, ex, e), unit='tz-aware', via='dt_bump')
+                        continue
+                    if not isinstance(r, datetime.datetime) or r.tzinfo is None or r != e or r.utcoffset() != e.utcoffset():
+                        rec('compound-wrong', 'dt_bump(%r, %r): expected %s (counted on the local date, zone kept) observed %r' % (t, s0, e, r), unit='tz-aware', via='dt_bump',
+                            parts=[u for u, _ in parts])
+        # ---- named tenors as one of several bumps of one call (separate arguments / one list): every bump is applied, left to right
+        t = DAYS[i]
+        for seq in NAMED_SEQS:
+            parts = [(('b', NAMED[x.lower()]) if x.lower() in NAMED else (x[-1], int(x[:-1]))) for x in seq]
+            e = fold(t, parts)
+            if e is None:
+                continue
+            for via, f in (('dt_bump*', lambda: dt_bump(t, *seq)), ('dt_bump[list]', lambda: dt_bump(t, list(seq)))):
+                nsub += 1
+                try:
+                    r = f()
+                    ncall += 1
+                except Exception as ex:
+                    rec('raised', '%s(%r, %r) raised %s: %s; expected %s' % (via, t, seq, type(ex).__name__, ex, e), unit='named-in-sequence', via=via)
+                    continue
+                if r != e:
+                    rec('compound-wrong', '%s(%r, %r): expected %s (every bump applied, left to right) observed %s' % (via, t, seq, e, r), unit='named-in-sequence', via=via,
+                        parts=[u for u, _ in parts])
         # ---- the start day written as something else than a datetime
         t = DAYS[i]
         for parts in DATE_TENORS:
@@ -569,6 +614,7 @@ def suites(tier, seed):
         Suite('compound_intraday', lambda: gen_compound([(2000, 2001)] if tier == 'quick' else [(1999, 2002), (2024, 2025)]), check_compound_intraday,
               rule='every day of %s x start times 22:00, 01:30, 12:00:00.000005 x all %d two- and three-part tenors over %s holding a business-day part and an h/n/s part '
                    '(string and one-argument-per-part forms); every day as a midnight start written as date / np.datetime64 / Timestamp / yyyymmdd int / ISO string x %d tenors; '
+                   'time-zone aware starts (UTC-5, UTC+9, UTC at 22:00 and 01:30 local) x business-day and fixed-length tenors; named tenors inside multi-bump calls; '
                    'non-trivial = tenors for which the order of the parts matters from some start' % (
                        'the year 2000' if tier == 'quick' else '1999-2001 and 2024', len(ITENORS), [spell(u, n) for u, n in IPARTS], len(DATE_TENORS)),
               bounds=dict(tenors=len(ITENORS), parts=len(IPARTS), start_times=len(ITODS))),
